@@ -104,6 +104,9 @@ impl<Error: Send + 'static> DecodeScheduler<Error> {
 					verif_hook!("dec.error", std::sync::Arc::as_ptr(&self.shared) as usize, 0);
 					self.error_producer.push(error).ok();
 					self.shared.encountered_error.store(true, Ordering::SeqCst);
+					// the sound stops as soon as it sees the error, so there is nothing
+					// left to decode. retrying here would spin at full speed until then
+					break;
 				}
 			}
 		});
